@@ -1,4 +1,5 @@
 import BU.Properties.C07
+import BU.Properties.C07_GenSign
 import BU.Properties.C07_GenTweak
 #print axioms C07.take32_append
 #print axioms C07.drop32_append
@@ -14,6 +15,8 @@ import BU.Properties.C07_GenTweak
 #print axioms C07.sig_length
 #print axioms C07.keypath_key_matches_unconditional
 #print axioms C07.keypath_sig_verifies_unconditional
+#print axioms C07GenSign.gen_sign_taproot_input
+#print axioms C07GenSign.gen_keypath_sig_verifies
 #print axioms C07GenTweak.gen_full_pubkey_gen
 #print axioms C07GenTweak.gen_negate_privkey
 #print axioms C07GenTweak.gen_tweak_taproot_privkey
